@@ -2,6 +2,7 @@
   Props/C18.lean — asyncio: deletion cancels for good, finished jobs vanish, no task ends in error.
 -/
 import SchedVerif.Props.C17
+import SchedVerif.Lemmas.AsyncDead
 namespace SV
 
 def Phase.terminal : Phase → Bool
@@ -102,5 +103,59 @@ theorem C18.self_delete_delivered (s : AState) (k : Nat) (t : ATask) (ht : s.tas
 example : (arun 100 { tz := none, now := 0 }
     [.sched { call := .once, timings := [.td 5], isList := false } [{ acts := [.del 0] }],
      .run 40 100]).reg = [] := by decide
+
+
+/-! ### "for good": over every continuation of the history -/
+
+/-- **deletion cancels for good** — once `delete_job(k)` has returned for a registered job, then
+    whatever happens afterwards (any further scheduling, deletions, coroutine scripts of other jobs,
+    any passage of virtual time): the job's coroutine never starts again, and the job is never
+    registered again -/
+theorem C18.deleted_never_starts_again (s : AState) (k : Nat) (t : ATask) (ht : s.task? k = some t)
+    (hr : k ∈ s.reg) (hn : s.reg.Nodup) (fuel : Nat) (ops : List AOp) :
+    startCount (arun fuel (s.deleteJob k none).1 ops).log k = startCount (s.deleteJob k none).1.log k ∧
+    k ∉ (arun fuel (s.deleteJob k none).1 ops).reg := by
+  obtain ⟨_, hnr, t', ht', hterm, _⟩ := C18.delete_cancels s k t ht hr hn
+  have hdead : DeadJob (s.deleteJob k none).1 k := by
+    refine ⟨t', ht', ?_⟩
+    cases hp : t'.phase <;> simp_all [Phase.terminal, DeadTask]
+  have hgone : AGone (s.deleteJob k none).1 k :=
+    ⟨hnr, (List.getElem?_eq_some_iff.mp (show (s.deleteJob k none).1.tasks[k]? = some t' from ht')).1⟩
+  exact ⟨(Frozen.arun fuel k ops _ hdead).count, (AGone.arun fuel k ops _ hgone).1⟩
+
+/-- **… also when the job's own coroutine deleted it**: from that moment no further run of it starts
+    (the pending cancellation is delivered at its next await or at the loop head), whatever follows -/
+theorem C18.self_deleted_never_starts_again (s : AState) (k : Nat) (hrun : IsRunning s k) (t : ATask)
+    (ht : s.task? k = some t) (hr : k ∈ s.reg) (fuel : Nat) (rest : List Act) (raises : Bool) (ops : List AOp) :
+    let s1 := runActs fuel (s.deleteJob k (some k)).1 k rest raises
+    startCount (arun fuel s1 ops).log k = startCount s.log k := by
+  intro s1
+  have hc : s.reg.contains k = true := by simpa using hr
+  have hdead0 : DeadJob (s.deleteJob k (some k)).1 k := by
+    obtain ⟨r, v, hph⟩ := hrun t ht
+    unfold AState.deleteJob
+    simp only [hc, if_true]
+    refine ⟨{ t with pendingCancel := true }, ?_, Or.inr (Or.inr ⟨rfl, r, v, hph⟩)⟩
+    unfold AState.cancel
+    rw [AState.task?_setTask]
+    simp only [if_true, AState.logCancel_task?]
+    have : ({ s with reg := s.reg.erase k } : AState).task? k = some t := ht
+    rw [this]
+    simp [hph]
+  have hcount0 : startCount (s.deleteJob k (some k)).1.log k = startCount s.log k := by
+    unfold AState.deleteJob
+    simp only [hc, if_true]
+    unfold AState.cancel
+    simp only [AState.setTask_log]
+    unfold AState.logCancel
+    have : ({ s with reg := s.reg.erase k } : AState).task? k = some t := ht
+    obtain ⟨r, v, hph⟩ := hrun t ht
+    simp [this, hph]
+  have hk : k < (s.deleteJob k (some k)).1.tasks.length := by
+    rw [deleteJob_len]
+    exact (List.getElem?_eq_some_iff.mp (show s.tasks[k]? = some t from ht)).1
+  have h1 := Frozen.runActs fuel k _ k rest raises hdead0 (IsRunning.deleteJob s k hrun k) hk
+  have h2 := Frozen.arun fuel k ops s1 h1.dead
+  rw [h2.count, h1.count, hcount0]
 
 end SV
